@@ -20,7 +20,8 @@ CAPS = [0, 1, 2, 3, 4, 5, 6, 7, 8, 9, 10, 16, 32, 64, 65, 66, 67, 68, 69, 70, 71
 
 
 def feature_sets(tier):
-    return [[]] if tier == "quick" else [[], core.WIRE_FEATURES]
+    # the encoder does not depend on any feature - which is exactly what running it in all eight wire-feature builds checks
+    return core.all_wire_feature_sets()
 
 
 def parts_of(kind, a):
